@@ -261,7 +261,7 @@ def main(check: Check, argv: list[str]) -> int:
         with open(args.replay) as f:
             rep = json.load(f)
         res = _safe_run(check, rep['spec'])
-        print(json.dumps(_jsonable(res), indent=1)[:20000])
+        print(json.dumps(_jsonable(res), indent=1)[:int(os.environ.get('VF_REPLAY_CHARS', '20000'))])
         return 1 if res['violations'] else 0
 
     t0 = time.monotonic()
